@@ -113,6 +113,17 @@ pub fn run(a: &Args) {
             }
         }
     }
+    // names with a multi-byte character at every small byte offset (any fixed-offset slicing shows here)
+    for ch in ["é", "€", "𝄞", "д"] {
+        for off in 0..9 {
+            let name = format!("{}{}{}", "abcdefghi".chars().take(off).collect::<String>(), ch, if off % 2 == 0 { "" } else { "z" });
+            seeds.push(format!("<r {n}=\"1\"><{n} p=\"2\">t</{n}><x {n}=\"3\" xml:{n}=\"4\"/></r>", n = name).into_bytes());
+            seeds.push(format!("<{n}><p:{n}/><{n}:q {n}:{n}=\"1\"/></{n}>", n = name).into_bytes());
+        }
+    }
+    for n in [":", "a:", ":a", "xmlns:", "xmlns", "x:", "::", "a::b", "xml:", "_", "-", "."] {
+        seeds.push(format!("<r {n}=\"1\"><{n}/><{n} {n}=\"2\">t</{n}></r>", n = n).into_bytes());
+    }
     let g = GenCfg::rich();
     for _ in 0..40 {
         let root = g.names[r.below(g.names.len())].clone();
